@@ -650,8 +650,12 @@ def env_edges(c, env, flags_func=None):
   env_names -= {'self'}
   for n in c.nodes:
     if n.kind in ('if', 'while') and n.ast is not None:
-      test = _subst_flags(n.ast, flags_func or c.func)
-      r, _ = _residual(test, env)
+      r, _ = _residual(n.ast, env)
+      if not isinstance(r, bool):
+        # undecided on the names as written: try again with single-assignment flags replaced by their definitions
+        r2, _ = _residual(_subst_flags(n.ast, flags_func or c.func), env)
+        if isinstance(r2, bool) or not any(isinstance(x, ast.Name) and x.id in env for e_ in r for x in ast.walk(e_)):
+          r = r2
       if isinstance(r, bool):
         cut += [(n, m, l) for m, l in c.succ[n] if l in ('T', 'F') and (l == 'T') != r]
         continue
@@ -685,8 +689,21 @@ def bypass_under(c, env, target, through, flags_func=None):
   return None
 
 
+_SUBST_CACHE: dict = {}
+
+
 def _subst_flags(test, func):
-  """Replace single-assignment boolean flags by their defining expressions (one level)."""
+  """Replace single-assignment boolean flags by their defining expressions (one level); memoised per test node."""
+  k = (id(test), id(astu._n(func)) if func is not None else 0)
+  hit = _SUBST_CACHE.get(k)
+  if hit is not None and hit[0] is test:
+    return hit[1]
+  out = _subst_flags_uncached(test, func)
+  _SUBST_CACHE[k] = (test, out)
+  return out
+
+
+def _subst_flags_uncached(test, func):
   class T(ast.NodeTransformer):
     def visit_Name(self, node):
       d = _flag(node, func)
@@ -742,3 +759,30 @@ def conditions(func_node):
         yield c, c
     elif isinstance(n, ast.BoolOp) and not isinstance(astu.parent(n), (ast.If, ast.While, ast.IfExp, ast.Assert, ast.BoolOp, ast.UnaryOp)):
       yield n, n   # `a and b` used as a value: operands before the last are tested for truth
+
+
+def kind_pred(var, kind, how=('type_is', 'isinstance', 'eq')):
+  """Predicate for atomic tests saying that `var` is of `kind`: `type(var) is K`, `isinstance(var, K | (.., K, ..))`, `var == K`."""
+  def p(e):
+    if 'type_is' in how and isinstance(e, ast.Compare) and len(e.ops) == 1 and isinstance(e.ops[0], (ast.Is, ast.Eq)) and astu.src(e.left) == 'type(%s)' % var and astu.src(e.comparators[0]).split('.')[-1] == kind:
+      return True
+    if 'isinstance' in how and isinstance(e, ast.Call) and astu.call_name(e) == 'isinstance' and len(e.args) == 2 and astu.src(e.args[0]) == var:
+      t = e.args[1]
+      ts = t.elts if isinstance(t, ast.Tuple) else [t]
+      return any(astu.src(x).split('.')[-1] == kind or astu.src(x) == kind for x in ts)
+    if 'eq' in how and isinstance(e, ast.Compare) and len(e.ops) == 1 and isinstance(e.ops[0], (ast.Eq, ast.Is)) and astu.src(e.left) == var and astu.src(e.comparators[0]).split('.')[-1] == kind:
+      return True
+    return False
+  return p
+
+
+def neg_kind_pred(var, kind):
+  """`type(var) is not K` / `var != K`: refuting it establishes the kind."""
+  def p(e):
+    return isinstance(e, ast.Compare) and len(e.ops) == 1 and isinstance(e.ops[0], (ast.IsNot, ast.NotEq)) and astu.src(e.left) in ('type(%s)' % var, var) and astu.src(e.comparators[0]).split('.')[-1] == kind
+  return p
+
+
+def kind_edges(c, var, kind):
+  """CFG edges on which `var` is known to be of `kind` (either polarity of the test)."""
+  return est_edges(c, kind_pred(var, kind)) + est_edges(c, neg_kind_pred(var, kind), negative=True)
